@@ -42,6 +42,8 @@ P_C06R(x) ==
            /\ LookupOK(x.post) /\ QueriesOK(Rec.post, x.post)
            /\ (Accepted(x) => /\ LookupOK(x.u_post) /\ NoDupLookups(Rec.u_post)
                               /\ LookupOK(x.r_post) /\ NoDupLookups(Rec.r_post))
+    \* a freshly constructed solution: lookups and query answers agree with the graph it was given
+    /\ (IsCtor(x.c) /\ x.pf.forest /\ x.ok) => (LookupOK(x.post) /\ QueriesOK(Rec.post, x.post))
 \* C07: the pixel query returns exactly the node's pixels
 PixQueryOK(j, O) == HasSeg => \A n \in Present(O) : Rng(j.q.pix[n]) = MaskOf(O, n)
 P_C07R(x) == P_C07(x) /\ ((HasSeg /\ x.pf.forest /\ x.pf.seg /\ x.ok /\ ~IsSwitch(x.c)) => PixQueryOK(Rec.post, x.post))
@@ -76,7 +78,8 @@ RefOne(x, r) ==
        /\ (acc => /\ u.ret = x.u_ret /\ SameObs(Obs(u.s), x.u_post)
                   /\ rr.ret = x.r_ret /\ SameObs(Obs(rr.s), x.r_post))
 \* bulk recomputation of track / lineage ids assigns them in an order the model does not fix
-ArbitraryIds(c) == c[1] = KEnable /\ c[3] = 1 /\ ({"tid", "lid"} \cap FeatSet(c[2]) # {})
+ArbitraryIds(c) == \/ c[1] = KEnable /\ c[3] = 1 /\ ({"tid", "lid"} \cap FeatSet(c[2]) # {})
+                   \/ c[1] = KRebuild /\ (Bit(c[2], 0) \/ Bit(c[2], 1))
 \* primitives are modelled (and judged) under their documented preconditions only
 OutsidePre(x) == IsPrim(x.c) /\ ~(PFValid(x.pf) /\ PrimPre(x.pre, x.c))
 Refines(x) == ArbitraryIds(x.c) \/ OutsidePre(x) \/ \E r \in StepSet(ModelOf(x.pre), x.c) : RefOne(x, r)
